@@ -5,7 +5,12 @@
 
 use std::{cmp, ops};
 use std::collections::VecDeque;
+#[cfg(not(routinator_verif_shuttle))]
 use std::sync::{Arc, RwLock};
+#[cfg(routinator_verif_shuttle)]
+use std::sync::Arc;
+#[cfg(routinator_verif_shuttle)]
+use shuttle::sync::RwLock;
 use std::time::{Duration, SystemTime};
 use chrono::{DateTime, Utc};
 use log::info;
